@@ -6,9 +6,23 @@ import common, syncfam, syncoracle, syncrun
 KIND_FOCUS = None
 
 
+FOCUS_KINDS = ["partition_unique", "sliding_window", "zip_latest", "combine_latest", "zip", "unique", "partition", "slice",
+               "accumulate", "flatten", "pluck", "collect"]
+
+
 def gen_cases(rng, n, tier, faults=None):
     g = syncfam.Gen(rng, max_nodes=12 if tier == "quick" else 24, max_events=14 if tier == "quick" else 40, faults=faults)
-    return [g.case() for _ in range(n)]
+    cases = [g.case() for _ in range(n)]
+    # focused small graphs: one state-carrying kind at a time, few nodes, many events over a small alphabet, nearly
+    # every element with metadata (repeated keys / full windows / backlogs are reached far more often than in big graphs)
+    per = max(8, n // 40)
+    for k in FOCUS_KINDS:
+        if faults == "direct" and k == "partition":
+            continue
+        gk = syncfam.Gen(rng, max_nodes=5, max_events=16 if tier == "quick" else 30, faults=faults,
+                         allow=[k, "map", "sink", "union"], md_prob=0.9, feedback=0.1)
+        cases += [gk.case() for _ in range(per)]
+    return cases
 
 
 def load_corpus(prop):
